@@ -44,9 +44,10 @@ class Interp:
         self.data = c10.content(N, self.bps, cfg["salt"])
         inp, kw, self.paths = c10.make_input(cfg, self.data)
         mr, limit = c10.resolve_max_read(cfg)
-        args = dict(block_dur=cfg["B"] / sr)
-        if cfg.get("H") is not None:
-            args["hop_dur"] = cfg["H"] / sr
+        bd, hd = c10.durations(cfg)
+        args = dict(block_dur=bd)
+        if hd is not None:
+            args["hop_dur"] = hd
         if mr is not None:
             args["max_read"] = mr
         with lib_guard(self.case):
@@ -182,6 +183,7 @@ def config(draw, maxN=50):
     return dict(
         sr=draw(st.sampled_from([8, 10, 100, 16000])), sw=draw(st.sampled_from([1, 2, 4])),
         ch=draw(st.integers(1, 2)), N=N, B=B, H=draw(st.one_of(st.none(), st.integers(1, B))),
+        fb=draw(st.sampled_from([0, 0, 0.5, 0.75])), fh=0,
         mr=draw(st.one_of(st.none(), st.tuples(st.integers(0, N + 5), st.just(0)).map(list))),
         kind=draw(st.sampled_from(["bytes", "bytes", "raw_lazy", "wav_lazy", "buffer"])),
         how=draw(st.sampled_from(["record", "Recorder", "record", "Recorder", "plain"])),
